@@ -215,7 +215,7 @@ func TestVerifC12(t *testing.T) {
 			for _, s := range secrets {
 				for _, v := range vers {
 					for _, rk := range []string{"same", "different", "different-case"} {
-						for _, placement := range []string{"form", "header", "header-urlencoded"} {
+						for _, placement := range []string{"form", "header", "header-urlencoded", "header+body-names-codes-client"} {
 							if !verifThorough() && (rk != "same" || placement == "header-urlencoded") && (len(code.Name)+len(s.name)+len(v.name))%3 != 0 {
 								continue
 							}
@@ -243,6 +243,13 @@ func TestVerifC12(t *testing.T) {
 								q.UseBasic, q.BasicUser, q.BasicPass = true, caller.ID, s.val
 							case "header-urlencoded":
 								q.UseBasic, q.BasicUser, q.BasicPass = true, url.QueryEscape(caller.ID), url.QueryEscape(s.val)
+							case "header+body-names-codes-client":
+								// the caller authenticates in the header; the body's client_id names the client the code was issued to
+								if strings.ContainsAny(caller.ID+s.val, " +%&/=") || code.Client == caller.ID {
+									continue
+								}
+								q.UseBasic, q.BasicUser, q.BasicPass = true, caller.ID, s.val
+								f.Set("client_id", code.Client)
 							}
 							resp := env.Do(q.Build())
 							released := resp.Code == 200 && strings.Contains(string(resp.Body), "id_token")
